@@ -468,7 +468,7 @@ pub fn c01(ctx: &mut Ctx) {
     ctx.rule = "every string of six input spaces goes to every public parsing entry point (Compound::parse + full iteration, Packet::parse, the typed parsers, Unknown::parse + try_as x7, ReportBlock::parse, the five FCI parsers directly and through parse_fci on both feedback kinds); on every accepted value every public accessor, conversion, Debug/Clone/Eq and iterator is called forwards and backwards with iterators step-capped linearly in the input length and polled 3 times past their end; all ordered accessor pairs on the base set W and on the short SDES bodies. Oracle: no unwind, no iterator over its bound, no case over 20 s (watchdog), no runaway allocation (cap). non-trivial = accepted by at least one entry point, distinct by fingerprint".into();
     ctx.bound("S1", "byte0 (all 256) x 13 types x 7 length-field variants x lengths 0..=56 x 6 last bytes x 3 fills; all 256 types on a reduced alphabet");
     ctx.bound("S2", ctx.tier.pick("W: k=1 over 256 values; k=2 over 12 symbols, bases <= 32 bytes", "W: k=1 over 256 values; k=2 over 26 symbols, bases <= 48 bytes"));
-    ctx.bound("S3", ctx.tier.pick("SDES bodies: 1-2 words x 8 symbols, 3 words x 4 symbols", "SDES bodies: 1-2 words x 8 symbols, 3 words x 6 symbols, 4 words x 4 symbols"));
+    ctx.bound("S3", ctx.tier.pick("SDES bodies: 1-2 words x 8 symbols, 3 words x 4 symbols", "SDES bodies: 1-2 words x 8 symbols, 3 words x 6 symbols, 4 words x 3 symbols (4 words x 4 symbols: C10 thorough)"));
     ctx.bound("S4", "raw FCI bodies: every length 0..=40 x first byte (all) x 4 second bytes x 3 fills");
     ctx.bound("S5", "every truncation and +1..+8 extension of W, with/without length resync");
     ctx.bound("S6", "giants: 262144-byte packets of each type (4 fills), 65536 BYEs, two maximal packets, 262145 bytes, maximal SDES of minimal chunks, feedback packets of 65548 / 131072 / 262144 bytes under each FCI type's own gate (3 fills)");
@@ -504,7 +504,9 @@ pub fn c01(ctx: &mut Ctx) {
         Tier::Quick => run(ctx, bytes::sdes_bodies_space(3, vec![0x00, 0x01, 0x08, 0xFF], vec![1]), Mode::SdesOnly, false),
         Tier::Thorough => {
             run(ctx, bytes::sdes_bodies_space(3, vec![0x00, 0x01, 0x02, 0x08, 0x09, 0xFF], vec![1]), Mode::SdesOnly, false);
-            run(ctx, bytes::sdes_bodies_space(4, vec![0x00, 0x01, 0x08, 0xFF], vec![1]), Mode::SdesOnly, false);
+            // 4 words over 3 symbols here; the 4-symbol space (8.6e9 strings, 19 minutes) is run by C10's thorough
+            // tier, whose oracle includes "no panic"
+            run(ctx, bytes::sdes_bodies_space(4, vec![0x00, 0x01, 0x08], vec![1]), Mode::SdesOnly, false);
         }
     }
     run(ctx, bytes::fci_raw_space(), Mode::FciOnly, false);
